@@ -412,6 +412,20 @@ def replay(path, out=sys.stdout):
     return 0
 
 
+_ACTS = ("Idle", "Repositioning", "DispatchTrip", "ServicingTrip", "DispatchStation", "ChargingStation", "ChargeQueueing", "DispatchBase",
+         "ReserveBase", "ChargingBase", "OutOfService")
+_KINDS = ("Idle", "OutOfService", "DispatchTrip", "DispatchStation", "ChargeStation", "ChargeBase", "DispatchBase", "ReserveBase", "Reposition")
+
+
+def _missing_sigs(sigs):
+    """cells of the (activity x instruction kind x outcome) table no run of this batch reached (pooling excluded); a cell can be
+    legitimately empty (e.g. an instruction HIVE accepts from every activity has no 'rejected' cell for a present vehicle)"""
+    if not sigs:
+        return None
+    have = {(a, k, bool(o)) for a, k, o in sigs}
+    return [f"{a}/{k}/{'accepted' if o else 'rejected'}" for a in _ACTS for k in _KINDS for o in (True, False) if (a, k, o) not in have]
+
+
 def build_evidence(prop, tier, base_seed, driver, results, extra, n_viol, wall, harness_errors, aborted, n_planned):
     stats = Counter()
     probes = Counter()
@@ -453,6 +467,7 @@ def build_evidence(prop, tier, base_seed, driver, results, extra, n_viol, wall, 
         "abstract_state_measure": "hash of (sorted multiset of (activity, has route) per vehicle, occupancy of every plug/queue/stall, #waiting requests capped at 5, #assigned requests capped at 3)",
         "distinct_transition_signatures": len(sigs),
         "transition_signature_measure": "(activity before, instruction kind, accepted|rejected)",
+        "transition_signatures_not_reached": _missing_sigs(sigs),
         "run_health": {"runs_aborted_by_an_exception_escaping_hive": len(aborted), "harness_errors": len(harness_errors)},
         "components": COMPONENTS,
         "exhaustive": False,
